@@ -194,11 +194,14 @@ def out_module(rec):
                 if x[0] != 'raw':
                     raise Mismatch('code section entry ' + x[0])
                 sl = x[1]
+                if not (isinstance(sl, Struct) and sl.ty in ('ByteBuf', 'ByteSlice')):
+                    raise Mismatch('code section entry is not an encoded function: %r' % (sl,))
                 what = sl.get('what')
                 fn = what[1]
                 ent0 = fn.f[0].items[0]
                 locs = [(idx(t.f[0]), out_valtype(t.f[1])) for t in ent0[1].items] if len(ent0) > 1 else []
-                N['code'].append({'locals': locs, 'instrs': [i[1] for i in fn.f[0].items if i[0] == 'instruction'], 'slice': sl, 'k': fn.f[1]})
+                N['code'].append({'locals': locs, 'instrs': [i[1] for i in fn.f[0].items if i[0] == 'instruction'], 'slice': sl, 'k': fn.f[1],
+                                  'prefixed': what[0] == 'len-prefixed-function', 'start': sl.get('start') if sl.ty == 'ByteSlice' else None})
         elif kind == 'CustomSection':
             N['customs'].append((tok(sec.get('name')), tok(sec.get('data'))))
         elif kind == 'NameSection':
